@@ -183,7 +183,7 @@ def bool_validate( b ):
         return res
     except ValueError:
         pass
-    lowered = b.lower()
+    lowered = b.strip().lower() # (as int() does; values are a whitespace-padded list)
     if lowered == "true":
         return True
     if lowered == "false":
